@@ -60,13 +60,16 @@ OPTION_DEVS = {
     "Determinant1": lambda s: _crop(s, Determinant=1),
     "SwitchGDD1": lambda s: _crop(s, SwitchGDD=1),
     "PolStress0": lambda s: _crop(s, PolHeatStress=0, PolColdStress=0, TrColdStress=0),
-    "bunds_z0": lambda s: {**s, "field": {"bunds": True, "z_bund": 0.0}},
-    "bunds_z0.0005": lambda s: {**s, "field": {"bunds": True, "z_bund": 0.0005, "bund_water": 10}},
-    "bunds_z0.2": lambda s: {**s, "field": {"bunds": True, "z_bund": 0.2, "bund_water": 500}},
-    "fallow_bunds": lambda s: {**s, "fallow": {"bunds": True, "z_bund": 0.1, "bund_water": 30}},
-    "mulches": lambda s: {**s, "field": {"mulches": True, "mulch_pct": 100, "f_mulch": 1.0}},
-    "sr_inhb": lambda s: {**s, "field": {"sr_inhb": True}},
-    "cn_adj": lambda s: {**s, "field": {"curve_number_adj": True, "curve_number_adj_pct": -20}},
+    # field features MERGE into the field management already chosen (pairs of deviations put two features on the same field)
+    "bunds_z0": lambda s: _fieldkw(s, "field", bunds=True, z_bund=0.0),
+    "bunds_z0.0005": lambda s: _fieldkw(s, "field", bunds=True, z_bund=0.0005, bund_water=10),
+    "bunds_z0.2": lambda s: _fieldkw(s, "field", bunds=True, z_bund=0.2, bund_water=500),
+    "fallow_bunds": lambda s: _fieldkw(s, "fallow", bunds=True, z_bund=0.1, bund_water=30),
+    "mulches": lambda s: _fieldkw(s, "field", mulches=True, mulch_pct=100, f_mulch=1.0),
+    "bunds_and_mulches": lambda s: _fieldkw(s, "field", bunds=True, z_bund=0.15, bund_water=0, mulches=True, mulch_pct=70, f_mulch=0.5),
+    "fallow_bunds_and_mulches": lambda s: {**_fieldkw(s, "fallow", bunds=True, z_bund=0.15, bund_water=25, mulches=True, mulch_pct=70, f_mulch=0.5), "off_season": True},
+    "sr_inhb": lambda s: _fieldkw(s, "field", sr_inhb=True),
+    "cn_adj": lambda s: _fieldkw(s, "field", curve_number_adj=True, curve_number_adj_pct=-20),
     "gw_const": lambda s: {**s, "gw": A.resolve_gw(A.GW["1.5"], s["start"])},
     "gw_series_c": lambda s: {**s, "gw": A.resolve_gw(A.GW["rising_c"], s["start"])},
     "gw_series_v": lambda s: {**s, "gw": A.resolve_gw(A.GW["rising_v"], s["start"])},
@@ -124,6 +127,10 @@ def _crop(s, **kw):
     c = copy.deepcopy(s["crop"])
     c["kw"].update(kw)
     return {**s, "crop": c}
+
+
+def _fieldkw(s, key, **kw):
+    return {**s, key: {**(s.get(key) or {}), **kw}}
 
 
 def _soilkw(s, **kw):
